@@ -151,7 +151,7 @@ class IngestSuite(Suite):
                     for s in rng.sample(SEQS, rng.randint(3, len(SEQS))):
                         ps = [rng.choice(["", "", "REV__"]) + f"P{rng.randrange(5)}" for _ in range(rng.choice([1, 2, 3]))]
                         pmap[s] = list(dict.fromkeys(ps))
-                files.append({"rows": rows, "map": pmap, "flanks": rng.random() < 0.6})
+                files.append({"rows": rows, "map": pmap, "flanks": rng.choice([False, False, "dash", "dash", "residue", "dash_first", "residue_first"])})
             case = {"fmt": fmt, "desc": desc, "files": files, "seed": rng.randint(0, 10 ** 9)}
             if nfiles >= 2 and rng.random() < 0.4:
                 # one digest map for all files (the command line's usual shape: a one-element list), and - as with several methods
